@@ -1,25 +1,31 @@
-"""Kernel specs for the translator: which functions of /repo are re-translated to Gallina on every run.
-Order matters (dependencies first)."""
+"""Kernel specs for the translator, assembled from tools/kernels.d/*.py (each defines SPECS, a list of module
+specs).  Modules are emitted in dependency order (topological sort on 'deps', ties by file then list order)."""
+import glob
+import os
+import runpy
 
-FP = 'NT(mu:S,sReg:S)'
+_HERE = os.path.dirname(os.path.abspath(__file__))
 
-SPECS = [
-    dict(name='SmoothFunctions', file='optimism/SmoothFunctions.py', consts=['safeTol'],
-         funcs=[('zmax', ['S', 'S']), ('min_base', ['S', 'S', 'S']), ('min', ['S', 'S', 'S']),
-                ('max', ['S', 'S', 'S']), ('abs', ['S', 'S'])]),
-    dict(name='Math', file='optimism/Math.py',
-         funcs=[('safe_sqrt', ['S']),
-                ('safe_sqrt_jvp', ['TUP(S)', 'TUP(S)']),
-                ('_two_sum', ['S', 'S'])]),
-    dict(name='Friction', file='optimism/contact/Friction.py', deps=['Math'],
-         funcs=[('compute_friction_energy_from_perp_slip', ['V2', FP])]),
-    dict(name='Surface', file='optimism/Surface.py',
-         funcs=[('compute_normal', ['M22'])]),
-    dict(name='MortarContact', file='optimism/contact/MortarContact.py',
-         funcs=[('compute_normal', ['M22']), ('eval_linear_field_on_edge', ['V2', 'S']),
-                ('smooth_linear', ['S', 'S'])]),
-    dict(name='EdgeCpp', file='optimism/contact/EdgeCpp.py', deps=['Surface', 'SmoothFunctions'],
-         funcs=[('norm_squared', ['V2']), ('dot', ['V2', 'V2']), ('cross', ['V2', 'V2']),
-                ('cpp_line', ['M22', 'V2']), ('cpp', ['M22', 'V2']), ('cpp_distance', ['M22', 'V2']),
-                ('area', ['V2', 'V2', 'V2']), ('smooth_distance', ['A2x2x2', 'V2', 'S'])]),
-]
+
+def _load():
+    specs = []
+    for path in sorted(glob.glob(os.path.join(_HERE, '..', 'kernels.d', '*.py'))):
+        specs += runpy.run_path(path)['SPECS']
+    names = [s['name'] for s in specs]
+    assert len(names) == len(set(names)), 'duplicate kernel module name in kernels.d'
+    done, out = set(), []
+    pending = list(specs)
+    while pending:
+        progress = False
+        for s in list(pending):
+            if all(d in done or d not in names for d in s.get('deps', [])):
+                out.append(s)
+                done.add(s['name'])
+                pending.remove(s)
+                progress = True
+        if not progress:
+            raise RuntimeError('dependency cycle in kernels.d: %s' % [s['name'] for s in pending])
+    return out
+
+
+SPECS = _load()
